@@ -912,6 +912,75 @@ def rule_back(S):
     S.require('R-BACK', 'hand-over sites', len(sites), 1)
 
 
+def rule_rew(S):
+    """R-REW: the saved rank belongs to the permutation word it was saved with."""
+    facts = S.facts()
+    S.rule('R-REW', 'iscan_findnext: iscan_check_retry may replace the local permutation snapshot (and the validated '
+                    'version) with the current words; on every path from such a call to the place where the per-entry '
+                    'walk takes its start rank from the resume state, the stored rank was set to 0 (or the cursor moved '
+                    'to another stack element): a rank counted in the old word is not a position in the new one - a '
+                    'remove below the cursor together with an insert above it keeps the count and shifts a present key '
+                    'under the saved rank')
+    f = facts.one(Y + 'iscan_findnext')
+    cf = cursor_fields(facts)
+    rankf = cf['perm_rank']
+
+    def rank_store(nd):
+        """(True, is_zero) when nd stores into the rank field of a stack element"""
+        if nd['k'] == 'BinaryOperator' and nd.get('op') == '=':
+            l = f.strip(f.ch(nd)[0])
+            if l is not None and l['k'] == 'MemberExpr' and l.get('name') == rankf:
+                r = f.strip(f.ch(nd)[1], casts=True)
+                return True, (r is not None and r['k'] == 'IntegerLiteral' and str(r.get('val')) in ('0', 'False'))
+        return False, False
+
+    def reads_rank(nd):
+        if nd['k'] == 'DeclStmt':
+            for v in nd.get('vars', []):
+                if 'init' in v and any(x['k'] == 'MemberExpr' and x.get('name') == rankf for x in f.walk(v['init'])):
+                    return True
+        if nd['k'] == 'BinaryOperator' and nd.get('op') == '=':
+            if any(x['k'] == 'MemberExpr' and x.get('name') == rankf for x in f.walk(f.ch(nd)[1])):
+                return True
+        return False
+
+    sites = {}
+    seen = {'chk': 0, 'zero': 0}
+
+    def step(ctx, nd, st):
+        if is_call(nd, cq=Y + 'iscan_check_retry'):
+            seen['chk'] += 1
+            return True
+        if is_call(nd, cq=Y + 'iscan_context::stack') or is_call(nd, cq=Y + 'iscan_context::stack_pop'):
+            return False
+        isst, zero = rank_store(nd)
+        if isst:
+            if zero:
+                seen['zero'] += 1
+                return False
+            return st
+        if reads_rank(nd):
+            e = sites.setdefault('start rank read at ' + short_loc(nd), {'ok': True, 'loc': short_loc(nd), 'path': None})
+            if st:
+                e['ok'] = False
+                e['path'] = e['path'] or ctx.witness()
+            return st
+        if nd['k'] == 'ReturnStmt':
+            return None
+        return st
+
+    Explorer(f, step, None).run(False)
+    S.require('R-REW', 'iscan_check_retry calls in iscan_findnext', seen['chk'], 2)
+    S.require('R-REW', 'rank resets', seen['zero'], 1)
+    S.require('R-REW', 'places where the walk takes its start rank', len(sites), 1)
+    for site, e in sorted(sites.items()):
+        S.ob('R-REW', f.qname, site, e['ok'],
+             'every path from a re-snapshot to this read resets the stored rank' if e['ok'] else
+             'the walk resumes at the saved rank although the permutation snapshot may have been replaced since the rank '
+             'was counted: entries that moved below that rank in the new word are never looked at (a key present '
+             'throughout the iteration is skipped)', loc=e['loc'], path=e['path'])
+
+
 def rule_end0(S):
     """R-END0: the stale-root handling of iscan_findnext at layer 0 - scan end only for the empty tree, and no retry
     on the empty tree without progress."""
@@ -1071,6 +1140,7 @@ def run(S):
     rule_lroot(S)
     rule_end0(S)
     rule_back(S)
+    rule_rew(S)
     from checks.C01 import snap_rule
     S.rule('R-SNAP', 'iscan_findnext: every rank / count lookup uses the local permutation snapshot (shared with C04)')
     snap_rule(S, S.facts().one(Y + 'iscan_findnext'), 'R-SNAP')
